@@ -21,7 +21,9 @@ DGRID = [0.0, 0.25, 0.5, 1.0, 2.0, 3.0, 4.0, 8.0]
 MAXD = [0.0, 0.25, 0.375, 0.5, 0.75, 1.0, 1.5, 2.0, 2.5, 3.0, 3.5, 4.0, 6.0, 8.0, 16.0]
 
 
-def _stream(vm, nq, nt, nres):
+def _stream(vm, nq, nt, nres, fixed=None):
+    """fixed: optional list of (query index, track index) per entry - the structure of the stream is then concrete (ids and
+    distances stay symbolic, every distance present)"""
     qids = [vm.fresh(64, 'query%d' % i) for i in range(nq)]
     tids = [vm.fresh(64, 'track%d' % i) for i in range(nt)]
     allids = qids + tids
@@ -32,9 +34,13 @@ def _stream(vm, nq, nt, nres):
     for k in range(nres):
         f = vm.fresh(64, 'from%d' % k)
         t = vm.fresh(64, 'to%d' % k)
-        vm.assume(z3.Or([f.e == c.e for c in qids]))
-        vm.assume(z3.Or([t.e == x.e for x in tids]))
-        some = vm.choose_n(2, "distance present") == 0
+        if fixed is not None:
+            vm.assume(z3.And(f.e == qids[fixed[k][0]].e, t.e == tids[fixed[k][1]].e))
+            some = True
+        else:
+            vm.assume(z3.Or([f.e == c.e for c in qids]))
+            vm.assume(z3.Or([t.e == x.e for x in tids]))
+            some = vm.choose_n(2, "distance present") == 0
         d = grid_f32(vm, 'd%d' % k, DGRID)
         stream.append((f, t, d if some else None))
     return qids, tids, stream
@@ -88,10 +94,10 @@ def _elt(P, e):
     return (fld(P, e, 'TopNVotingElt', 'query_track'), fld(P, e, 'TopNVotingElt', 'winner_track'), fld(P, e, 'TopNVotingElt', 'weight'))
 
 
-def _mk_topn(nq, nt, nres):
+def _mk_topn(nq, nt, nres, fixed=None):
     def q(vm, P):
         fn = P.impl_methods[('TopNVoting', 'Voting', 'winners')][0][0]
-        qids, tids, stream = _stream(vm, nq, nt, nres)
+        qids, tids, stream = _stream(vm, nq, nt, nres, fixed)
         topn = vm.fresh(64, 'topn')
         vm.assume(z3.ULE(topn.e, 3))
         minv = vm.fresh(64, 'min_votes')
@@ -134,10 +140,10 @@ def _mk_topn(nq, nt, nres):
     return q
 
 
-def _mk_bestfit(nq, nt, nres):
+def _mk_bestfit(nq, nt, nres, fixed=None):
     def q(vm, P):
         fn = P.impl_methods[('BestFitVoting', 'Voting', 'winners')][0][0]
-        qids, tids, stream = _stream(vm, nq, nt, nres)
+        qids, tids, stream = _stream(vm, nq, nt, nres, fixed)
         minv = vm.fresh(64, 'min_votes')
         vm.assume(z3.ULE(minv.e, 3))
         # every order relation with the distance grid is represented (equal to / between grid points); exact values so that
@@ -262,6 +268,15 @@ for (nq, nt, nr, tier) in [(1, 1, 1, 'quick'), (1, 2, 2, 'quick'), (2, 2, 2, 'qu
                   "BestFitVoting::winners = oracle (each track to its heaviest claimant, others fall back to themselves), for every HashMap iteration order",
                   "%d queries x %d tracks, stream of %d results (ids chosen by z3), distances on the exact grid or None, min_votes <= 3, max_distance free" % (nq, nt, nr),
                   [BF], replay=_replay, opts={'map_order': 'nondet'}, max_paths=400000, timeout=3300, z3_timeout_ms=60000))
+# fixed stream structures that small free streams do not reach in the quick tier: a query with two claims competing with a
+# second query for one of them; one pair's distances interleaved with another pair's
+for nm, mkq, fn_, (nq, nt, fixed) in [("c17_bestfit_contest", _mk_bestfit, BF, (2, 2, [(0, 0), (0, 1), (1, 1)])),
+                                      ("c17_bestfit_contest4", _mk_bestfit, BF, (2, 2, [(0, 0), (1, 1), (0, 1), (1, 1)])),
+                                      ("c17_topn_interleaved", _mk_topn, TN, (1, 2, [(0, 0), (0, 1), (0, 0)])),
+                                      ("c17_topn_interleaved4", _mk_topn, TN, (2, 2, [(0, 0), (1, 1), (0, 0), (0, 1)]))]:
+    MIR.append(MQ(nm, 'thorough' if nm.endswith('4') else 'quick', mkq(nq, nt, len(fixed), fixed), "same oracle on a fixed stream structure %r (ids and distances symbolic)" % (fixed,),
+                  "%d queries x %d tracks, %d results, every distance present" % (nq, nt, len(fixed)), [fn_], replay=_replay,
+                  opts={'map_order': 'nondet'}, max_paths=400000, timeout=1500, z3_timeout_ms=60000))
 
 # Hungarian voting (SortVoting): "for every query that appears in the stream, either one track or the query itself, and no
 # track twice" - the same assignment obligations that C02 registers
